@@ -15,7 +15,7 @@ from vlib.checks.c04 import KEYS
 from vlib.mc import enum as E
 
 PROPERTY = 'C08'
-LEVEL = 'exploration'
+LEVEL = 'model_checking'
 ENGINE = 'C'
 TECHNIQUE = ('stateless bounded model checking: complete enumeration of nested mappings over typed '
              'key/value alphabets against a recursive reference, with a deep '
